@@ -740,6 +740,8 @@ MUTANTS = [
     {"name": "modifier-generator-dedups-deps", "edits": [{"file": T, "old": 'from typing import TYPE_CHECKING\n', "new": 'from typing import TYPE_CHECKING, NamedTuple\n'}, {"file": T, "old": 'class TemplateLoader:\n', "new": 'class _ModRec(NamedTuple):\n    slot: int\n    coef: str\n    deps: list\n    syms: list\n\n\nclass TemplateLoader:\n'}, {"file": T, "old": '        for sname, expr in ode_modifier.items():\n            spec = Species(sname, **species_kwargs)\n            sidx = species.index(spec)\n            for fact, dep in zip(expr["factors"], expr["reactants"]):\n                depspec = [Species(d, **species_kwargs) for d in dep]\n                depsym = [f"y[IDX_{d.alias}]" for d in depspec]\n                depsym_mul = "*".join(depsym)\n\n                rhs[sidx] += f" + ({fact}) * {depsym_mul}"\n\n                for dspec in depspec:\n                    didx = species.index(dspec)\n                    depsymcopy = depsym.copy()\n                    depsymcopy.remove(y[didx])\n                    depsymcopy_mul = "*".join(depsymcopy)\n\n                    term = f" + {\'*\'.join([f\'({fact})\', *depsymcopy])}"\n                    jacrhs[sidx * n_eqns + didx] += term\n', "new": '        for rec in self._modifier_records(species, species_kwargs, ode_modifier):\n            rhs[rec.slot] += f" + ({rec.coef}) * {\'*\'.join(rec.syms)}"\n            for dspec in rec.deps:\n                didx = species.index(dspec)\n                rest = rec.syms.copy()\n                rest.remove(y[didx])\n                term = f" + {\'*\'.join([f\'({rec.coef})\', *rest])}"\n                jacrhs[rec.slot * n_eqns + didx] += term\n'}, {"file": T, "old": '    def _assign_rates(\n', "new": '    @staticmethod\n    def _modifier_records(species, species_kwargs, ode_modifier):\n        for target, spec_ in ode_modifier.items():\n            slot = species.index(Species(target, **species_kwargs))\n            for coef, names in zip(spec_["factors"], spec_["reactants"]):\n                deps = [Species(n_, **species_kwargs) for n_ in sorted(set(names))]\n                yield _ModRec(slot, coef, deps, [f"y[IDX_{d_.alias}]" for d_ in deps])\n\n    def _assign_rates(\n'}], "rules": ['R4']},
     {"name": "modifier-generator-wrong-factor", "edits": [{"file": T, "old": 'from typing import TYPE_CHECKING\n', "new": 'from typing import TYPE_CHECKING, NamedTuple\n'}, {"file": T, "old": 'class TemplateLoader:\n', "new": 'class _ModRec(NamedTuple):\n    slot: int\n    coef: str\n    deps: list\n    syms: list\n\n\nclass TemplateLoader:\n'}, {"file": T, "old": '        for sname, expr in ode_modifier.items():\n            spec = Species(sname, **species_kwargs)\n            sidx = species.index(spec)\n            for fact, dep in zip(expr["factors"], expr["reactants"]):\n                depspec = [Species(d, **species_kwargs) for d in dep]\n                depsym = [f"y[IDX_{d.alias}]" for d in depspec]\n                depsym_mul = "*".join(depsym)\n\n                rhs[sidx] += f" + ({fact}) * {depsym_mul}"\n\n                for dspec in depspec:\n                    didx = species.index(dspec)\n                    depsymcopy = depsym.copy()\n                    depsymcopy.remove(y[didx])\n                    depsymcopy_mul = "*".join(depsymcopy)\n\n                    term = f" + {\'*\'.join([f\'({fact})\', *depsymcopy])}"\n                    jacrhs[sidx * n_eqns + didx] += term\n', "new": '        for rec in self._modifier_records(species, species_kwargs, ode_modifier):\n            rhs[rec.slot] += f" + ({rec.coef}) * {\'*\'.join(rec.syms)}"\n            for dspec in rec.deps:\n                didx = species.index(dspec)\n                rest = rec.syms.copy()\n                rest.remove(y[didx])\n                term = f" + {\'*\'.join([f\'({rec.coef})\', *rest])}"\n                jacrhs[rec.slot * n_eqns + didx] += term\n'}, {"file": T, "old": '    def _assign_rates(\n', "new": '    @staticmethod\n    def _modifier_records(species, species_kwargs, ode_modifier):\n        for target, spec_ in ode_modifier.items():\n            slot = species.index(Species(target, **species_kwargs))\n            for coef, names in zip(spec_["factors"], spec_["reactants"]):\n                deps = [Species(n_, **species_kwargs) for n_ in names]\n                yield _ModRec(slot, target, deps, [f"y[IDX_{d_.alias}]" for d_ in deps])\n\n    def _assign_rates(\n'}], "rules": ['R4']},
     {"name": "reindex-sentinel-constant-zero", "edits": [{"file": T, "old": '    def __init__(self, solver: str, method: str, device: str) -> None:\n', "new": '    UNSET = 0\n\n    def __init__(self, solver: str, method: str, device: str) -> None:\n'}, {"file": T, "old": '        reactindices = [reac.idxfromfile for reac in network.reactions]\n        if all([idx == -1 for idx in reactindices]):\n', "new": '        reactindices = [reac.idxfromfile for reac in network.reactions]\n        nolabel = [reac.idxfromfile == self.UNSET for reac in network.reactions]\n        if all(nolabel):\n'}], "rules": ['R3']},
+    {"name": "statement-percent-format-key", "file": T, "old": 'rateeqns[idx] = f"{rate_sym}[{idx}] = {value};"', "new": 'rateeqns[idx] = "%s[%d] = %s;" % (rate_sym, key, value)', "rules": ["R1"]},
+    {"name": "network-setattr-filtered-table", "file": NETWORK, "old": "        self._rate_modifier = rate_modifier.copy() if rate_modifier else {}", "new": '        setattr(self, "_rate_modifier", {k: v for k, v in rate_modifier.items() if v} if rate_modifier else {})', "rules": ["R7"]},
 ]
 BENIGN = [
     {"name": "init-ode-modifier-setdefault", "file": INIT, "old": '                if ode_modifier.get(key):\n                    ode_modifier[key]["factors"].append(fact)\n                    ode_modifier[key]["reactants"].append(rdep)\n                else:\n                    ode_modifier[key] = {\n                        "factors": [fact],\n                        "reactants": [rdep],\n                    }\n',
@@ -767,6 +769,8 @@ BENIGN = [
     {"name": "modifier-terms-from-generator", "edits": [{"file": T, "old": 'from typing import TYPE_CHECKING\n', "new": 'from typing import TYPE_CHECKING, NamedTuple\n'}, {"file": T, "old": 'class TemplateLoader:\n', "new": 'class _ModRec(NamedTuple):\n    slot: int\n    coef: str\n    deps: list\n    syms: list\n\n\nclass TemplateLoader:\n'}, {"file": T, "old": '        for sname, expr in ode_modifier.items():\n            spec = Species(sname, **species_kwargs)\n            sidx = species.index(spec)\n            for fact, dep in zip(expr["factors"], expr["reactants"]):\n                depspec = [Species(d, **species_kwargs) for d in dep]\n                depsym = [f"y[IDX_{d.alias}]" for d in depspec]\n                depsym_mul = "*".join(depsym)\n\n                rhs[sidx] += f" + ({fact}) * {depsym_mul}"\n\n                for dspec in depspec:\n                    didx = species.index(dspec)\n                    depsymcopy = depsym.copy()\n                    depsymcopy.remove(y[didx])\n                    depsymcopy_mul = "*".join(depsymcopy)\n\n                    term = f" + {\'*\'.join([f\'({fact})\', *depsymcopy])}"\n                    jacrhs[sidx * n_eqns + didx] += term\n', "new": '        for rec in self._modifier_records(species, species_kwargs, ode_modifier):\n            rhs[rec.slot] += f" + ({rec.coef}) * {\'*\'.join(rec.syms)}"\n            for dspec in rec.deps:\n                didx = species.index(dspec)\n                rest = rec.syms.copy()\n                rest.remove(y[didx])\n                term = f" + {\'*\'.join([f\'({rec.coef})\', *rest])}"\n                jacrhs[rec.slot * n_eqns + didx] += term\n'}, {"file": T, "old": '    def _assign_rates(\n', "new": '    @staticmethod\n    def _modifier_records(species, species_kwargs, ode_modifier):\n        for target, spec_ in ode_modifier.items():\n            slot = species.index(Species(target, **species_kwargs))\n            for coef, names in zip(spec_["factors"], spec_["reactants"]):\n                deps = [Species(n_, **species_kwargs) for n_ in names]\n                yield _ModRec(slot, coef, deps, [f"y[IDX_{d_.alias}]" for d_ in deps])\n\n    def _assign_rates(\n'}]},
     {"name": "reindex-sentinel-class-constant", "edits": [{"file": T, "old": '    def __init__(self, solver: str, method: str, device: str) -> None:\n', "new": '    UNSET = -1\n\n    def __init__(self, solver: str, method: str, device: str) -> None:\n'}, {"file": T, "old": '        reactindices = [reac.idxfromfile for reac in network.reactions]\n        if all([idx == -1 for idx in reactindices]):\n', "new": '        reactindices = [reac.idxfromfile for reac in network.reactions]\n        nolabel = [reac.idxfromfile == self.UNSET for reac in network.reactions]\n        if all(nolabel):\n'}]},
     {"name": "reindex-zip-imported-count", "edits": [{"file": NETWORK, "old": 'import shutil\n', "new": 'import shutil\nfrom itertools import count as _count\n'}, {"file": NETWORK, "old": 'for idx, reac in enumerate(self.reaction_list):\n            reac.idxfromfile = idx', "new": 'for pos, reac in zip(_count(), self.reaction_list):\n            reac.idxfromfile = pos'}]},
+    {"name": "statement-percent-format", "file": T, "old": 'rateeqns[idx] = f"{rate_sym}[{idx}] = {value};"', "new": 'rateeqns[idx] = "%s[%d] = %s;" % (rate_sym, idx, value)'},
+    {"name": "render-int-keys-dict-of-pairs", "file": RENDER, "old": "rate_modifier = {int(key): value for key, value in rate_modifier.items()}", "new": "rate_modifier = dict((int(key), value) for key, value in rate_modifier.items())"},
 ]
 
 
